@@ -11,7 +11,7 @@ import (
 	"time"
 )
 
-var callTimeout = 5 * time.Second
+var callTimeout = 15 * time.Second
 
 // opSource yields the operations of a case one at a time (generators look at the container).
 type opSource interface {
